@@ -575,6 +575,22 @@ type ScriptReader struct {
 	Reads  int // Read calls that returned
 	Calls  int // Read calls started
 	Bytes  int
+	// OnRead, if set, is called just before a Read returns (with the lock held).
+	OnRead func(n int, data []byte, err error)
+}
+
+// SetOnRead installs the Read callback.
+func (r *ScriptReader) SetOnRead(f func(n int, data []byte, err error)) {
+	r.mu.Lock()
+	r.OnRead = f
+	r.mu.Unlock()
+}
+
+// IsClosed reports whether Close was called.
+func (r *ScriptReader) IsClosed() bool {
+	r.mu.Lock()
+	defer r.mu.Unlock()
+	return r.closed
 }
 
 // NewScriptReader makes a reader.
@@ -587,7 +603,24 @@ func NewScriptReader(w *World, att int) *ScriptReader {
 // Push appends a scripted result.
 func (r *ScriptReader) Push(res RRes) {
 	r.mu.Lock()
+	if r.closed {
+		r.mu.Unlock()
+		return
+	}
 	r.script = append(r.script, res)
+	r.mu.Unlock()
+	r.cond.Broadcast()
+}
+
+// CloseRec is Close, calling rec (if the reader was still open) while the
+// reader's lock is held, so that the closing is ordered with Read results.
+func (r *ScriptReader) CloseRec(rec func()) {
+	r.mu.Lock()
+	if !r.closed && rec != nil {
+		rec()
+	}
+	r.closed = true
+	r.script = nil
 	r.mu.Unlock()
 	r.cond.Broadcast()
 }
@@ -596,6 +629,7 @@ func (r *ScriptReader) Push(res RRes) {
 func (r *ScriptReader) Close() error {
 	r.mu.Lock()
 	r.closed = true
+	r.script = nil // a closed transport delivers nothing more
 	r.mu.Unlock()
 	r.cond.Broadcast()
 	return nil
@@ -610,6 +644,9 @@ func (r *ScriptReader) Read(p []byte) (int, error) {
 	}
 	if len(r.script) == 0 {
 		r.Reads++
+		if r.OnRead != nil {
+			r.OnRead(0, nil, io.ErrClosedPipe)
+		}
 		return 0, io.ErrClosedPipe
 	}
 	res := r.script[0]
@@ -618,11 +655,17 @@ func (r *ScriptReader) Read(p []byte) (int, error) {
 		r.script[0].Data = res.Data[n:]
 		r.Reads++
 		r.Bytes += n
+		if r.OnRead != nil {
+			r.OnRead(n, p, nil)
+		}
 		return n, nil
 	}
 	r.script = r.script[1:]
 	r.Reads++
 	r.Bytes += n
+	if r.OnRead != nil {
+		r.OnRead(n, p, res.Err)
+	}
 	return n, res.Err
 }
 
@@ -652,6 +695,8 @@ type LogRec struct {
 
 // LogCap is a slog.Handler which captures records in order.
 type LogCap struct {
+	// OnRec, if set on the root handler, is called for every record.
+	OnRec func(LogRec)
 	w     *World
 	attrs []slog.Attr
 	recs  *[]LogRec
@@ -682,6 +727,9 @@ func (l *LogCap) Handle(_ context.Context, r slog.Record) error {
 	l.mu.Lock()
 	*l.recs = append(*l.recs, rec)
 	l.mu.Unlock()
+	if f := l.w.Log.OnRec; f != nil {
+		f(rec)
+	}
 	return nil
 }
 
